@@ -184,6 +184,69 @@ def run(tier, seed, out):
             res['violations'].append({'class': 'history', 'what': 'raised %r %s' % (ex, traceback.format_exc()[-300:])})
         if len(res['samples']) < 2:
             res['samples'].append({'history_offered_ids': offered_log[:4]})
+    # (5) bounded history through the REAL control layer handlers (on_connected / onAuthed / key-count notification /
+    #     result and error continuations as registered with _sendIq), uploads may overlap, confirmations may be lost
+    from yowsup.layers import YowLayerEvent
+    from yowsup.structs import ProtocolTreeNode
+    sec = res['sections'].setdefault('layer-history', {'n': 0, 'bad': 0})
+    for rep in range(25 if tier == 'quick' else 300):
+        d = tempfile.mkdtemp()
+        db = os.path.join(d, 'axolotl.db')
+        AxolotlManager.COUNT_GEN_PREKEYS = 5
+        confirmed, log = set(), []
+        try:
+            for session in range(rng.randrange(2, 5)):
+                mgr = AxolotlManager(LiteAxolotlStore(db), 'u')        # process (re)start
+                L = AxolotlControlLayer()
+                inflight = []
+
+                class Prof:
+                    axolotl_manager = mgr
+                props = {'profile': Prof()}
+                L.getProp = lambda k, default=None: props.get(k, default)
+                L.setProp = lambda k, v: props.__setitem__(k, v)
+                L.toLower = lambda n: None
+                L.toUpper = lambda n: None
+                L.broadcastEvent = lambda ev: None
+                L._sendIq = lambda e, ok, err: inflight.append((e, ok, err))
+                L.on_connected(YowLayerEvent('org.openwhatsapp.yowsup.event.network.connected'))
+                offered = sorted(k.getId() for k in L._unsent_prekeys)
+                sec['n'] += 1
+                res['evaluations'] += 1
+                allids = {k.getId() for k in mgr._store.loadPreKeys()}
+                if set(offered) & confirmed:
+                    sec['bad'] += 1
+                    res['violations'].append({'class': 'layer-history', 'what': 'confirmed keys offered again after %r: %r' % (log, sorted(set(offered) & confirmed))})
+                if (allids - confirmed) - set(offered):
+                    sec['bad'] += 1
+                    res['violations'].append({'class': 'layer-history', 'what': 'unconfirmed keys no longer pending after %r: %r' % (log, sorted((allids - confirmed) - set(offered)))})
+                L.onAuthed(YowLayerEvent('org.openwhatsapp.yowsup.event.auth.authed', passive=bool(props.get('org.openwhatsapp.yowsup.prop.auth.passive'))))
+                log.append('login')
+                for step in range(rng.randrange(0, 5)):
+                    act = rng.choice(['count', 'result', 'result', 'error', 'lose'])
+                    if act == 'count':
+                        L.onRequestKeysEncryptNotification(ProtocolTreeNode('notification', {'id': '1', 'type': 'encrypt', 'from': 's.whatsapp.net', 't': '1'},
+                                                                            [ProtocolTreeNode('count', {'value': '0'})]))
+                        log.append('count')
+                    elif inflight:
+                        e, ok, err = inflight.pop(rng.randrange(len(inflight)))
+                        ids_ = {int.from_bytes(k, 'big') for k in e.preKeys}
+                        if act == 'result':
+                            ok(None, e)
+                            confirmed |= ids_
+                            log.append('result%r' % sorted(ids_)[:2])
+                        elif act == 'error':
+                            try:
+                                err(None, e)
+                            except Exception:
+                                pass
+                            log.append('error')
+                        else:
+                            log.append('lost')
+                del L, mgr
+        except Exception as ex:
+            sec['bad'] += 1
+            res['violations'].append({'class': 'layer-history', 'what': 'raised %r %s' % (ex, traceback.format_exc()[-400:])})
     sys.stdout = real_stdout
     res['distinct'] = res['evaluations']
     res['violations'] = res['violations'][:10]
